@@ -30,4 +30,14 @@ theorem decodeValueF_obj_head {N : Type} (c : NumCodec N) (f : Nat) (bs : List U
 theorem firstNonWs_cons_brace (t : List UInt8) : firstNonWs (123 :: t) = some 123 := by
   simp [firstNonWs]
 
+theorem depth_nest {N : Type} (n : Nat) : depth (nest n : JValue N) = n + 1 := by
+  induction n with
+  | zero => simp [nest, depth, depthElems]
+  | succ n ih => simp [nest, depth, depthElems, ih]
+
+theorem encode_nest_length {N : Type} (c : NumCodec N) (n : Nat) : (jsonEncode c (nest n : JValue N)).length = 2 * (n + 1) := by
+  induction n with
+  | zero => simp [nest, jsonEncode]
+  | succ n ih => simp [nest, jsonEncode, encodeRestElems, ih]; omega
+
 end Icinga.C20
